@@ -600,11 +600,16 @@ async fn session_case(rep: &mut Report, rng: &mut Rng, t: util::Transport, which
 async fn pacing_case(rep: &mut Report, mode: &str, ivl_ms: u64) {
   let ctx = util::new_ctx();
   let pull = ctx.socket(SocketType::Pull).unwrap();
-  util::set_i32(&pull, opt::HANDSHAKE_IVL, ivl_ms as i32).await;
+  // ivl_ms == 0: the option is left alone - the library's own default interval applies (15 s in this tree; libzmq's
+  // is 30 s), and the peer must be gone within 40 s however it paces its bytes
+  let default_ivl = ivl_ms == 0;
+  if !default_ivl {
+    util::set_i32(&pull, opt::HANDSHAKE_IVL, ivl_ms as i32).await;
+  }
   let ep = util::bind_fresh(&pull, util::Transport::Tcp).await.unwrap();
   let mut raw = RawStream::connect(&ep).await.unwrap();
   let greeting = refzmtp::greeting_v3(0, "NULL", false);
-  let bound = Duration::from_millis(3 * ivl_ms + 1000);
+  let bound = if default_ivl { Duration::from_secs(40) } else { Duration::from_millis(3 * ivl_ms + 1000) };
   let t0 = Instant::now();
   let mut closed: Option<Duration> = None;
   let mut sent_bytes = 0usize;
@@ -618,7 +623,7 @@ async fn pacing_case(rep: &mut Report, mode: &str, ivl_ms: u64) {
     }
     _ => {
       // drip: one byte every `gap` (just inside each read timeout), never finishing
-      let gap = Duration::from_millis(if mode == "drip_fast" { ivl_ms / 4 } else { ivl_ms * 3 / 5 });
+      let gap = Duration::from_millis(if default_ivl { 3000 } else if mode == "drip_fast" { ivl_ms / 4 } else { ivl_ms * 3 / 5 });
       let mut stream = greeting.clone();
       // an endless READY-looking command: declare a long command frame and keep feeding it
       stream.push(0x06);
@@ -640,10 +645,10 @@ async fn pacing_case(rep: &mut Report, mode: &str, ivl_ms: u64) {
   }
   rep.case(&("pacing", mode, ivl_ms), true);
   match closed {
-    Some(d) => rep.max(&format!("max:handshake_disconnect_ms[{}]", mode), d.as_millis() as u64),
+    Some(d) => rep.max(&format!("max:handshake_disconnect_ms[{}{}]", mode, if default_ivl { ",default interval" } else { "" }), d.as_millis() as u64),
     None => rep.violation(
-      format!("handshake_never_times_out|{}", mode),
-      format!("a peer that never completes the handshake ({}; {} bytes sent) was still connected after {:?} with HANDSHAKE_IVL={}ms", mode, sent_bytes, bound, ivl_ms),
+      format!("handshake_never_times_out|{}{}", mode, if default_ivl { "|default_ivl" } else { "" }),
+      format!("a peer that never completes the handshake ({}; {} bytes sent) was still connected after {:?} with HANDSHAKE_IVL={}", mode, sent_bytes, bound, if default_ivl { "left at its default".to_string() } else { format!("{}ms", ivl_ms) }),
       json!({"mode": mode, "handshake_ivl_ms": ivl_ms, "observed_for_ms": bound.as_millis() as u64, "bytes_sent": sent_bytes}),
     ),
   }
@@ -711,6 +716,13 @@ fn main() {
       }
       if args.mine(4) {
         rt.block_on(slot_release_case(&mut rep));
+      }
+      // the same with HANDSHAKE_IVL left at its default
+      if args.mine(5) {
+        rt.block_on(pacing_case(&mut rep, "drip_slow", 0));
+      }
+      if args.mine(6) {
+        rt.block_on(pacing_case(&mut rep, "greeting_then_silence", 0));
       }
     }
     _ => engine_layer(&mut rep, &args, &mut rng),
